@@ -21,7 +21,7 @@ from vlib.runner import Result, violation
 USERS = [None, "www-data", 33, "nobody", 65534, 4242]        # 4242: a numeric uid without a passwd entry
 # accounts whose uid differs from their primary gid (a name must resolve to the uid, not the gid)
 USERS += [u for u in ("games", "man") if any(p_.pw_name == u and p_.pw_uid != p_.pw_gid for p_ in pwd.getpwall())]
-GROUPS = [None, "www-data", 33, "nogroup", 0, "daemon"]
+GROUPS = [None, "www-data", 33, "nogroup", 0, "daemon", 2147483653]      # the last one: a valid gid above 2**31
 
 
 def expected_groups(uid, gid):
